@@ -41,9 +41,9 @@ def subscribed(types, clsname):
 
 
 class Run:
-    def __init__(self, ctx, handler, pools, script):
+    def __init__(self, ctx, handler, pools, script, names='unique'):
         self.ctx, self.handler, self.pools = ctx, handler, pools
-        self.w = World(pools, handler=handler)
+        self.w = World(pools, handler=handler, names=names)
         self.ops, self.lines = [], []
         self.viol = []
         self.accepted = [dict() for _ in pools]      # pool -> {evid: count of notify matches (must be offered once)}
@@ -54,12 +54,18 @@ class Run:
         for op in script:
             self.do(op)
 
+    def pool_view(self, qi):
+        pool = self.w.pools[qi]
+        buf = getattr(pool, 'event_buffer', None)
+        return (tuple(self.w.evids.get(id(e)) for e in buf) if buf is not None else None, getattr(pool, 'serial', None))
+
     # -- one operation ----------------------------------------------------------------------
     def do(self, op):
         w = self.w
         t = op.split()
         before = [[w.lstate(pi, li) for li in range(len(ls))] for pi, ls in enumerate(w.listeners)]
         ev0 = w.next_ev
+        before_pools = [self.pool_view(qi) for qi in range(len(w.pools))]
         if t[0] == 'notify':
             outs, err = w.notify(t[1], bytes.fromhex(t[2]).decode() if t[2] != '-' else '')
         elif t[0] == 'transition':
@@ -134,6 +140,13 @@ class Run:
             buffered = [e for e in self.accepted[qi] if e not in gone and e not in held]
             if len(buffered) > bs:
                 self.viol.append(('buffer-bound-exceeded', 'pool %s (buffer_size %d) holds %d undelivered events %r after %r' % (name, bs, len(buffered), buffered, op)))
+        # reject isolation: whatever a listener writes (FAIL, garbage ...) leaves every other pool's queue and
+        # poolserial counter alone (best-effort view of the pool objects, and in any case the accounting monitors)
+        if t[0] == 'read':
+            for qi, pool in enumerate(w.pools):
+                if qi != int(t[1]) and self.pool_view(qi) != before_pools[qi]:
+                    self.viol.append(('reject-not-isolated', 'output of listener %s.%s changed pool %s: %r -> %r' % (
+                        t[1], t[2], self.pools[qi][0], before_pools[qi], self.pool_view(qi))))
         # listener isolation: bytes from one listener change nothing in any other listener
         if t[0] == 'read':
             pi0, li0 = int(t[1]), int(t[2])
@@ -234,7 +247,7 @@ def gen_case(rng):
     for i in range(npools):
         pools.append(('p%d' % i, rng.randrange(1, 6), rng.randrange(1, 4), rng.choice(TYPE_SETS)))
     handler = rng.choice(['strict', 'default'])
-    return handler, pools
+    return handler, pools, rng.choice(['unique', 'shared', 'shared'])
 
 
 def gen_script(rng, pools, n, world_state=None):
@@ -281,6 +294,42 @@ def gen_script(rng, pools, n, world_state=None):
     return ops
 
 
+def gen_reject_case(rng):
+    """2-3 pools whose listeners have the same names (and priorities); one pool's listeners reject (FAIL, garbage,
+    death while BUSY) events that the other pools are not subscribed to, or are subscribed to as well"""
+    npools = rng.choice([2, 2, 3])
+    nl = rng.randrange(1, 3)
+    sets = rng.choice([[['TICK_5'], ['TICK_60'], ['REMOTE_COMMUNICATION']], [['TICK_5'], ['TICK'], ['TICK_60']],
+                       [['TICK'], ['TICK_5', 'TICK_60'], ['EVENT']]])
+    pools = [('p%d' % i, rng.randrange(1, 5), nl, sets[i]) for i in range(npools)]
+    ops, pid = [], 300
+    for pi in range(npools):
+        for li in range(nl):
+            pid += 1
+            ops += ['spawn %d %d %d' % (pi, li, pid), 'pstate %d %d running' % (pi, li), 'read %d %d %s' % (pi, li, READY.hex())]
+    k = 0
+    for _ in range(rng.randrange(3, 10)):
+        k += 1
+        ops.append('notify %s %s' % (rng.choice(['TICK_5', 'TICK_5', 'TICK_60', 'REMOTE_COMMUNICATION']), ('r%d' % k).encode().hex()))
+        for pi in range(npools):
+            ops.append('transition %d' % pi)
+        pi, li = rng.randrange(npools), rng.randrange(nl)
+        r = rng.random()
+        if r < 0.45:
+            ops.append('read %d %d %s' % (pi, li, b'RESULT 4\nFAILREADY\n'.hex()))
+        elif r < 0.65:
+            ops.append('read %d %d %s' % (pi, li, rng.choice([b'garbage\n', b'RESULT x\n', b'RESULT -1\n']).hex()))
+        elif r < 0.8:
+            pid += 1
+            ops += ['die %d %d - x' % (pi, li), 'spawn %d %d %d' % (pi, li, pid), 'pstate %d %d running' % (pi, li),
+                    'read %d %d %s' % (pi, li, READY.hex())]
+        else:
+            ops.append('read %d %d %s' % (pi, li, b'RESULT 2\nOKREADY\n'.hex()))
+        for pi in range(npools):
+            ops.append('transition %d' % pi)
+    return rng.choice(['strict', 'default']), pools, ops
+
+
 def corpus():
     up2 = ['spawn 0 0 11', 'pstate 0 0 running', 'spawn 1 0 12', 'pstate 1 0 running']
     tick = 'notify TICK_5 ' + b'when:5'.hex()
@@ -305,14 +354,15 @@ def corpus():
     ]
 
 
-def run_case(ctx, handler, pools, script, cases, impls, drain=True):
-    r = Run(ctx, handler, pools, script)
+def run_case(ctx, handler, pools, script, cases, impls, drain=True, names='unique'):
+    r = Run(ctx, handler, pools, script, names=names)
     if drain:
         r.drain()
     viol = r.monitors() if drain else r.viol
     r.fifo_monitor()
     spec = ','.join('%s:%d:%d:%s' % (n, b, l, '+'.join(t)) for n, b, l, t in pools)
-    cases.append(('case pool handler=%s pools=%s' % (handler, spec), r.ops))
+    cases.append(('case pool handler=%s names=%s pools=%s' % (handler, names, spec), r.ops))
+    ctx.count('names:' + names)
     impls.append(r.lines)
     delivered = sum(sum(d.values()) for d in r.ok)
     ctx.case_done(tuple(r.ops), delivered > 0)
@@ -324,7 +374,7 @@ def run_case(ctx, handler, pools, script, cases, impls, drain=True):
         if kind in seen:
             continue
         seen.add(kind)
-        ctx.violation(kind, what, {'handler': handler, 'pools': [list(p) for p in pools], 'ops': r.ops})
+        ctx.violation(kind, what, {'handler': handler, 'names': names, 'pools': [list(p) for p in pools], 'ops': r.ops})
     return r
 
 
@@ -332,11 +382,16 @@ def run(ctx):
     rng = ctx.rng
     cases, impls = [], []
     for handler, pools, script in corpus():
-        run_case(ctx, handler, pools, script, cases, impls)
+        for names in ('unique', 'shared'):
+            run_case(ctx, handler, pools, script, cases, impls, names=names)
     for _ in range(ctx.n(150, 2500)):
-        handler, pools = gen_case(rng)
+        handler, pools, names = gen_case(rng)
         script = gen_script(rng, pools, rng.randrange(5, 60))
-        run_case(ctx, handler, pools, script, cases, impls)
+        run_case(ctx, handler, pools, script, cases, impls, names=names)
+    # rejections in one pool while other pools have listeners of the same names and priorities
+    for _ in range(ctx.n(60, 800)):
+        handler, pools, script = gen_reject_case(rng)
+        run_case(ctx, handler, pools, script, cases, impls, names='shared')
     ctx.sample({'case': cases[1][0], 'ops': cases[1][1][:12], 'impl': impls[1][:12]})
     ctx.sample({'case': cases[-1][0], 'ops': cases[-1][1][:8], 'impl': impls[-1][:8]})
     ctx.correspond('pool', cases, impls)
@@ -347,7 +402,7 @@ def replay(ctx, data):
     cases, impls = [], []
     pools = [tuple(p[:3]) + (p[3],) for p in inp['pools']]
     ops = [' '.join(o.split()[:4]) + ' x' if o.startswith('die') else ' '.join(o.split()[:4]) if o.startswith('spawn') else o for o in inp['ops']]
-    run_case(ctx, inp['handler'], pools, ops, cases, impls, drain=False)
+    run_case(ctx, inp['handler'], pools, ops, cases, impls, drain=False, names=inp.get('names', 'unique'))
     ctx.correspond('pool', cases, impls)
 
 
